@@ -133,10 +133,22 @@ def overflowing_record(rng, h, dims=None):
     return laspy.ScaleAwarePointRecord(rec0.array, rec0.point_format, sc, of), dims, i
 
 
-def gen(ctx):
+def gen(ctx, box=False):
+    """box=True (round 7): a NON-empty original whose bounding box is DEGENERATE - every point at the real-world origin (offsets 0, X = Y = Z = 0: the
+    extrema stored in its header are the zeros an empty file has) on all axes or on some of them, or every point at one other place - followed by chunks
+    that mostly lie on ONE side of that place: the old extrema must stay inside the bounding box"""
     import laspy
     rng = ctx.rng
     h = lasio.rand_header(rng)
+    box_axes, box_at = (), None
+    if box:
+        box_axes = (0, 1, 2) if rng.random() < 0.6 else tuple(sorted(rng.sample([0, 1, 2], rng.choice([1, 2]))))
+        box_at = 0 if rng.random() < 0.8 else rng.choice([1, -1, 1000, -(2 ** 31), 2 ** 31 - 1])
+        of = np.array(h.offsets, dtype=np.float64)
+        for ax in box_axes:
+            if box_at == 0 or rng.random() < 0.5:
+                of[ax] = 0.0
+        h.offsets = of
     if rng.random() < 0.3:
         lasio.add_extra_dims(rng, h)
     enc = {}
@@ -147,8 +159,13 @@ def gen(ctx):
         enc = {"encoding_errors": rng.choice(["ignore", "replace"])}
     sweep = rng.random() < 0.5
     mk = (lambda n, **k: lasio.sweep_points(rng, h, n, start=rng.randrange(16))) if sweep else (lambda n, **k: lasio.rand_points(rng, h, n, **k))
-    n0 = rng.choice([0, 0, 1, 3, 12])
+    n0 = rng.choice([0, 0, 1, 3, 12]) if not box else rng.choice([1, 1, 2, 4, 12])
     A = mk(n0)
+    side = None
+    if box:
+        for ax in box_axes:
+            A.array["XYZ"[ax]] = np.int32(box_at)
+        side = rng.choice([None, 1, -1, -1])     # the appended chunks: anywhere / all above / all below the place of the original points
     evl = None
     if h.version.minor >= 4 and rng.random() < 0.55:
         evl = laspy.vlrs.vlrlist.VLRList([lasio.rand_vlr(rng) for _ in range(rng.choice([1, 2]))])
@@ -163,6 +180,8 @@ def gen(ctx):
     if enc:
         kw["encoding_errors"] = enc["encoding_errors"] if rng.random() < 0.8 else rng.choice(["ignore", "replace"])
     desc = dict(lasio.describe_header(h), orig_points=n0, evlrs=len(evl or []), gap=gap, non_ascii=nonascii, open=[via + ("(path)" if need_path else ""), {k: repr(v) for k, v in kw.items()}], sessions=[])
+    if box:
+        desc["original_points_all_at"] = {"axes": ["XYZ"[ax] for ax in box_axes], "raw_value": box_at, "offsets": [float(v) for v in h.offsets], "appended_on_side": side}
     cur = raw0
     chunks_all, model_ok = [], True
     outs_all = []
@@ -192,6 +211,10 @@ def gen(ctx):
                     reused = False
                     if r < 0.58:
                         rec = mk(rng.choice([0, 0, 1, 2, 7]))
+                        if side is not None and len(rec):
+                            for ax in box_axes:
+                                col = np.abs(rec.array["XYZ"[ax]].astype(np.int64)) % 100000 + 1
+                                rec.array["XYZ"[ax]] = np.clip(box_at + side * col, -(2 ** 31), 2 ** 31 - 1).astype(np.int32)
                         if len(rec) == 1 and rng.random() < 0.4:
                             rec = rec[0]   # 0-d one-point record (las.points[i])
                         kind = "same"
@@ -293,9 +316,10 @@ def sessions_for(ctx):
     global _SESS
     if _SESS is None:
         _SESS = []
-        for _ in range(ctx.n(450, 4000)):
+        nbox = ctx.n(50, 450)
+        for i in range(ctx.n(450, 4000) + nbox):
             try:
-                _SESS.append(gen(ctx))
+                _SESS.append(gen(ctx, box=i < nbox))
             except Exception as ex:     # the session generator itself met an exception of the implementation: a failing input
                 import traceback
                 _SESS.append({"desc": {"generator": "append session"}, "final": None, "error": f"{type(ex).__name__}: {ex} | " + traceback.format_exc()[-500:]})
@@ -403,7 +427,7 @@ def correspond(ctx):
                          "ndarray / list / tuple / int / whole, from plain and scale-aware records (file's or another scaling), LasData.points[..], LasData[..].points, views of "
                          "views; the source's PointFormat object grown / shrunk in place between chunks; other files with the same kinds of known VLRs (classification lookup, "
                          "GeoTIFF, WKT, waveform) read / written / appended to meanwhile; the appender's own header edited between chunks; close / close twice / with / close "
-                         "inside with / chunks after close, closefd False / True. non-trivial = at least one non-empty accepted chunk; distinct by description + bytes")
+                         "inside with / chunks after close, closefd False / True; round 7: NON-empty originals with a degenerate bounding box (every point at the real-world origin - the header extrema are the zeros of an empty file - on all / some axes, or at one other place) followed by chunks on one side of it. non-trivial = at least one non-empty accepted chunk; distinct by description + bytes")
     ss = sessions_for(ctx)
     dis = []
     cmds, idx = [], []
@@ -413,6 +437,9 @@ def correspond(ctx):
         for o in s.get("outs", []):
             ctx.count(f"chunk:{o[0]}:{'empty' if o[1] == 0 else 'nonempty'}:{o[2]}")
         ctx.count("open:" + s["desc"]["open"][0] + ":" + ",".join(sorted(s["desc"]["open"][1])))
+        if "original_points_all_at" in s["desc"]:
+            b = s["desc"]["original_points_all_at"]
+            ctx.count(f"degenerate-box:{'origin' if b['raw_value'] == 0 and not any(b['offsets'][('XYZ').index(a)] for a in b['axes']) else 'one place'}:{''.join(b['axes'])}:side {b['appended_on_side']}")
         if s.get("model_cmds"):
             # chained sessions: each model session starts from the implementation's previous result (checked equal below)
             for cur, toks in s["model_cmds"]:
